@@ -1092,9 +1092,11 @@ class TrustRegion:
             * options[Options.RHOEND]
             < self.resolution
         ):
-            self.resolution *= self._constants[
-                Constants.DECREASE_RESOLUTION_FACTOR
-            ]
+            self.resolution = max(
+                self._constants[Constants.DECREASE_RESOLUTION_FACTOR]
+                * self.resolution,
+                options[Options.RHOEND],
+            )
         elif (
             self._constants[Constants.MODERATE_RESOLUTION_THRESHOLD]
             * options[Options.RHOEND]
